@@ -6,13 +6,13 @@ loader = importlib.machinery.SourceFileLoader("check", os.path.join(here, "..", 
 spec = importlib.util.spec_from_loader("check", loader)
 chk = importlib.util.module_from_spec(spec)
 loader.exec_module(chk)
-exe, err = chk.build_harness()
-if err:
-    print(err); sys.exit(1)
 bad = 0
 for fn in sorted(os.listdir(os.path.join(chk.VERIF, "props"))):
     if fn.endswith(".json"):
         pid = fn[:-5]
+        exe, err = chk.build_harness(pid)
+        print(pid, "harness", "ok" if exe else err)
+        bad += 0 if exe else 1
         d, err = chk.build_driver(pid, chk.load_prop(pid))
         print(pid, "driver", "ok" if d else err)
         bad += 0 if d else 1
